@@ -66,6 +66,9 @@ func (c *Chain) BlockWithV2Contracts(specs []V2ContractSpec) (types.Block, conse
 		c.Files[r] = sp.Data
 		fc.Filesize, fc.FileMerkleRoot, fc.Capacity = uint64(len(sp.Data)), r, uint64(len(sp.Data))
 		fc.ProofHeight, fc.ExpirationHeight = sp.ProofHeight, sp.ExpirationHeight
+		if sp.ZeroRoot {
+			fc.FileMerkleRoot = types.Hash256{}
+		}
 		if sp.Twin && prev != nil {
 			fc = *prev
 		}
